@@ -539,7 +539,7 @@ class HTMLSanitizer(object):
                 return t
         return self._UNICODE_ESCAPE(_repl, self._NORMALIZE_NEWLINES('\n', text))
 
-    _CSS_COMMENTS = re.compile(r'/\*.*?\*/').sub
+    _CSS_COMMENTS = re.compile(r'/\*.*?\*/', re.DOTALL).sub
 
     def _strip_css_comments(self, text):
         return self._CSS_COMMENTS('', text)
